@@ -5,6 +5,8 @@ mod ctx;
 #[allow(dead_code)]
 mod docgen;
 #[allow(dead_code)]
+mod scripted;
+#[allow(dead_code)]
 mod rt;
 #[allow(dead_code)]
 mod deserk;
